@@ -129,6 +129,8 @@ theorem PL.cancelAllFor (h : PL w) (z : Pid) : PL (cancelAllFor w z) :=
   h.of_same (fun pl => ph_congr (by simp) pl) (by simp)
 theorem PL.cancelKindFor (h : PL w) (z : Pid) (act : Nat) (sig : Option Int) : PL (cancelKindFor w z act sig).1 :=
   h.of_same (fun pl => ph_congr (by simp) pl) (by simp)
+theorem PL.cancelUserAll (h : PL w) : PL (cancelUserAll w).1 :=
+  h.of_same (fun pl => ph_congr (by simp) pl) (by simp)
 theorem PL.recordRes (h : PL w) (r : Nat) : PL (recordRes w r) :=
   h.of_same (fun pl => ph_congr (by simp) pl) (by simp)
 theorem PL.recordBuf (h : PL w) (r : Nat) : PL (recordBuf w r) :=
